@@ -11,6 +11,12 @@ completion order) and, for a few cases, through the real loky executor.  The
 store is then read back (live object and a freshly opened read-only store) and
 compared with the model and with the solo results, record by record.
 
+A record may also fail INSIDE the writer (a value of an accepted type the writer
+cannot serialise): the model is a not-completed record named after the writer;
+records with such a fate, and identifiers with interior dots, are judged under
+circumstance-tagged signatures (``/unwritable-record``, ``/dotted-id@<store>``,
+``/suffix-like-id@<store>``) with one membership clause per view.
+
 The record a value was computed from is read from the CONTENT of the value
 (see checks/helpers_c14_apps.py), so "written under the wrong identifier" is
 observable independently of cogent3's own source bookkeeping.
@@ -33,12 +39,18 @@ PROPERTY_ID = "C14"
 ISOLATION = "subprocess"  # data stores only create their directories in a master process
 LEVEL = "exploration"
 RULE = (
-    "A case is an input set of 1-12 records with related identifiers (a, aa, ab, ba, r1, r10, ...), a value family (sequence "
-    "collections from fasta files via load_unaligned; serialisable dict records in memory, proxied or carrying their own "
+    "A case is an input set of 1-12 records with related identifiers (a, aa, ab, ba, r1, r10, ...; in a quarter of the cases "
+    "also identifiers with interior dots next to their stems: g, g.1, g.2, a.b, r1.x, A.FASTA), a value family (sequence "
+    "collections from fasta files via load_unaligned, as in-memory collections naming their origin in info.source, or from a "
+    "sqlite store via load_db; serialisable dict records in memory, proxied or carrying their own "
     "`source` attribute, or from files via a harness loader; tables from tsv files via load_tabular), a presentation (read-only "
-    "data store, list of members, list of str paths, list of Path), a composition loader? + 1-3 harness steps (+ an optional "
+    "data store, list of members, list of str paths, list of Path, list of objects), a composition loader? + 1-3 harness steps (+ an optional "
     "skip_not_completed=False observer) + writer (write_seqs / write_json / write_db / write_tabular on a directory or sqlite "
-    "store), an outcome per (record, step) drawn from ok / raise / None / wrong type / own NotCompleted / falsy-but-valid, "
+    "store), an outcome per (record, step) drawn from ok / raise / None / wrong type / own NotCompleted / falsy-but-valid and, for "
+    "the last step, unwritable (a value of an accepted type whose to_dict / to_string / to_rich_dict raise, so the WRITER's main "
+    "raises) / unjson (a dict holding a set: write_json raises, write_db stores it); the model for a record the writer cannot "
+    "write is a not-completed ERROR record named after the writer under the input's own identifier, all other records written, "
+    "apply_to returning normally; "
     "malformed input files (loader failures), and an execution: serial, owned schedule (pickling executor yielding results in a "
     "generated permutation) or the real loky executor with generated per-record sleeps and max_workers. Each case runs every "
     "input alone, as_completed, apply_to and (not for loky) a second apply_to, and compares store membership, identifiers, "
@@ -48,7 +60,12 @@ RULE = (
 )
 ASSUMPTIONS = [
     "inputs are truthy and carry a usable source (falsy inputs are dropped by _proxy_input by design); outputs may be falsy",
-    "identifiers contain no dots; the identifier of a record is what get_unique_id derives from its source (file name without format suffixes)",
+    "the identifier of a record is what get_unique_id derives from its source (file name without format suffixes); identifiers may contain interior dots (g.1, a.b) provided the source ends with a format suffix: a bare dotted source (in-memory source 'g.1', a member 'g.1' of a sqlite INPUT store) is read as stem + suffix by get_unique_id by design and is not generated",
+    "an identifier that ends, as written, with '.<suffix of the output directory store>' is taken as already suffixed (pinned by tests/test_app/test_data_store.py::test_write) and is not generated; A.FASTA (differs in case) is generated and reported under its own circumstance tag",
+    "a record the writer cannot write: origin must be the writer; for write_db, whose default serialiser is itself a composition, to_primitive / pickle_it are accepted as origin and any non-empty message; otherwise the message must contain the exception raised by the value ('unwritable:<key>', or TypeError for json)",
+    "unwritable values are subclasses of SequenceCollection / Table with the same class NAME (apps validate types by class name) and a dict subclass; they pickle by reference to checks/helpers_c14_apps.py",
+    "records read from a sqlite store by load_db have two names (the member, the info.source they carry): a stored not-completed record may name either",
+    "the sqlite input store holds no unreadable records (a failure inside load_db's deserialiser composition is named after its inner steps)",
     "output stores are fresh per case (mode 'w'); writing over existing completed records is C13's subject",
     "in a sqlite store the writers other than write_db name a not-completed record '<identifier>.json'; both '<identifier>' and '<identifier>.json' are accepted as the record's own identifier",
     "a value of the wrong type handed to a writer that accepts SerialisableType (write_json, write_db) is a valid value and is expected as a completed record; handed to a typed step or typed writer it must become a not-completed record naming that step",
@@ -932,7 +949,25 @@ def _kp_value_without_source(case, sig, msg):
     return any(f["status"] == "N" and f.get("src_circ") != "ok" for f in fold(case).values())
 
 
+def _kp_unwritable_reaches_writer(case, sig, msg):
+    """some record reaches the writer as a value of an accepted type on which the writer's main raises"""
+    return any(f["status"] == "N" and f["step"] == "writer" and f["kind"] in ("unwritable", "unjson") for f in fold(case).values())
+
+
+def _kp_unwritable_reaches_write_db(case, sig, msg):
+    """same, and the writer is write_db (its serialiser captures the exception and pickles the failure)"""
+    return case["writer"].startswith("write_db") and _kp_unwritable_reaches_writer(case, sig, msg)
+
+
+def _kp_dotted_identifier_dir_store(case, sig, msg):
+    """some identifier has an interior dot and the output is a directory store"""
+    return case["writer"].endswith(":dir") and any("." in k for k in case["keys"])
+
+
 KNOWN_PREDICATES = {
+    "unwritable_reaches_writer": _kp_unwritable_reaches_writer,
+    "unwritable_reaches_write_db": _kp_unwritable_reaches_write_db,
+    "dotted_identifier_dir_store": _kp_dotted_identifier_dir_store,
     "wrong_reaches_typed_writer": _kp_wrong_reaches_typed_writer,
     "unproxied_wrong_type": _kp_unproxied_wrong_type,
     "value_without_source": _kp_value_without_source,
@@ -940,7 +975,7 @@ KNOWN_PREDICATES = {
 
 META = {
     "technique": "Hypothesis-generated compositions, outcome tables and completion orders; fold model plus solo-call differential; owned pickling scheduler replacing PAR.as_completed, validated by a few real loky runs",
-    "level_text": "Each run drives several hundred compositions (three value families, four writers, directory and sqlite stores, four input presentations) over 1-12 records with generated per-record outcomes at every step, serially and under generated completion orders through a pickling executor, and checks every record of the output store (identifier, completed xor not-completed, content, origin, type, message, source) against a fold model and against calling the composition on that input alone; six cases go through the real loky executor with skewed task durations.",
-    "level_note": "Only the owned-schedule layer is exhaustive over completion orders; the real-executor layer observes the schedules the OS produces. MPI, zipped input stores and falsy inputs are not driven.",
+    "level_text": "Each run drives several hundred compositions (three value families, four writers, directory and sqlite stores, seven input presentations including in-memory collections and a sqlite store read by load_db) over 1-12 records (identifiers with interior dots included) with generated per-record outcomes at every step, the writer included (values the writer raises on), serially and under generated completion orders through a pickling executor, and checks every record of the output store (identifier, completed xor not-completed, content, origin, type, message, source) against a fold model and against calling the composition on that input alone; six cases go through the real loky executor with skewed task durations.",
+    "level_note": "Only the owned-schedule layer is exhaustive over completion orders; the real-executor layer observes the schedules the OS produces. MPI, zipped input stores, falsy inputs, bare dotted sources and writer failures after a partial write are not driven.",
     "design_ref": "DESIGN.md section 1, C14",
 }
